@@ -136,12 +136,48 @@ def _touch(state):
     state.log_evidence_error
 
 
-def run_impl(logL, case, reads=()):
+class _SamplerStub:
+    """The attributes NestedSampler.finalise reads and writes."""
+
+    def update_state(self, force=False):
+        pass
+
+
+def _real_finalise(state, n, tail, case=None):
+    """Consume the remaining live points through the sampler's own
+    NestedSampler.finalise (called as a plain function on a stand-in object):
+    the closing schedule of live-point counts is part of what is accumulated
+    incrementally during sampling."""
+    from nessai.samplers.nestedsampler import NestedSampler
+
+    stub = _SamplerStub()
+    lp = np.zeros(len(tail), dtype=[("x", "f8"), ("logL", "f8")])
+    lp["logL"] = tail
+    stub.live_points = lp
+    stub.state = state
+    stub.nested_samples = []
+    stub.nlive = n
+    stub.finalised = False
+    NestedSampler.finalise(stub)
+    if len(stub.nested_samples) != len(tail) or not stub.finalised:
+        raise Violation(
+            "finalise:live-points-not-consumed",
+            f"{len(stub.nested_samples)} of {len(tail)} live points recorded, "
+            f"finalised={stub.finalised}", case)
+
+
+def run_impl(logL, case, reads=(), persist=False):
     """Drive nessai: returns dict of results from both implementations.
 
     reads: positions (number of increments done) at which the read-only
     accessors of the state are queried, as a user or the sampler may do at
-    any time."""
+    any time; with persist=True the state additionally goes through a pickle
+    round trip there (what a checkpoint / resume does to it).  Without reads
+    a copy of the state is additionally finished by the real
+    NestedSampler.finalise (it must agree bit for bit with the documented
+    schedule nlive - i)."""
+    import pickle
+
     from nessai.evidence import _NSIntegralState
     from nessai.posterior import compute_weights
 
@@ -150,18 +186,35 @@ def run_impl(logL, case, reads=()):
     arr = case.get("nlive_arr")
     out = {}
     reads = set(reads)
+
+    def touch(state):
+        _touch(state)
+        if persist:
+            state = pickle.loads(pickle.dumps(state))
+        return state
+
     if arr is None:
         n = int(case["nlive"])
         state = _NSIntegralState(n, track_gradients=False, expectation=exp)
         for j, v in enumerate(logL[: N - n]):
             if j in reads and j > 0:
-                _touch(state)
+                state = touch(state)
             state.increment(v)
         out["logx_live"] = np.array(state.get_logx_live_points(n))
+        real = None
+        if not reads:
+            # a copy of the state as it is when sampling stops: its remaining
+            # live points are consumed by the real NestedSampler.finalise
+            real = pickle.loads(pickle.dumps(state))
         for i, v in enumerate(logL[N - n:]):
             if (N - n + i) in reads and (N - n + i) > 0:
-                _touch(state)
+                state = touch(state)
             state.increment(v, nlive=n - i)
+        if real is not None:
+            _real_finalise(real, n, logL[N - n:], case)
+            out["real_vols"] = np.array(real.log_vols, dtype=float)
+            out["real_w"] = np.array(real.log_posterior_weights, dtype=float)
+            out["real_logZ"] = float(real.log_evidence)
         one_logZ, one_w = compute_weights(np.array(logL), n, expectation=exp)
     else:
         state = _NSIntegralState(
@@ -169,7 +222,7 @@ def run_impl(logL, case, reads=()):
         )
         for j, (v, n) in enumerate(zip(logL, arr)):
             if j in reads and j > 0:
-                _touch(state)
+                state = touch(state)
             state.increment(v, nlive=n)
         one_logZ, one_w = compute_weights(
             np.array(logL), np.array(arr, dtype=float), expectation=exp
@@ -177,9 +230,11 @@ def run_impl(logL, case, reads=()):
     out["inc_rect"] = float(state.logZ)
     out["inc_vols"] = np.array(state.log_vols, dtype=float)
     out["inc_w"] = np.array(state.log_posterior_weights, dtype=float)
+    # the effective sample size of the state as it is now (first query in a
+    # history without reads, a repeated one in a history with reads)
+    out["ess"] = float(state.effective_n_posterior_samples)
     if reads:
-        # read, query the effective sample size, read again
-        out["ess"] = float(state.effective_n_posterior_samples)
+        # read again after the effective sample size was queried
         out["inc_w_again"] = np.array(state.log_posterior_weights,
                                       dtype=float)
     out["inc_logZ"] = float(state.finalise())
@@ -200,29 +255,55 @@ def check_case(case, use_mp=True):
     with np.errstate(all="ignore"):
         r = run_impl(logL, case)
     reads = case.get("reads") or []
+    variants = []
     if reads:
         # the same history with read-only queries interleaved must report
-        # bit-identical results (reading is not an operation on the state)
+        # bit-identical results (reading is not an operation on the state),
+        # and so must the history in which the state is pickled and restored
+        # at those positions (a checkpoint / resume is not one either)
+        variants.append(("reads-change-result", False))
+        if case.get("persist"):
+            variants.append(("persist-changes-result", True))
+    for label, persist in variants:
         with np.errstate(all="ignore"):
-            rr = run_impl(logL, case, reads=reads)
-        for name in ("inc_rect", "inc_logZ", "inc_logZ_attr"):
+            rr = run_impl(logL, case, reads=reads, persist=persist)
+        what = ("read-only queries" if not persist else
+                "read-only queries and a pickle round trip of the state")
+        for name in ("inc_rect", "inc_logZ", "inc_logZ_attr", "ess"):
             if rr[name] != r[name] and not (
                     math.isnan(rr[name]) and math.isnan(r[name])):
                 raise Violation(
-                    f"reads-change-result:{name}",
-                    f"{r[name]!r} without vs {rr[name]!r} with read-only "
-                    f"queries at {reads[:5]}", case)
+                    f"{label}:{name}",
+                    f"{r[name]!r} without vs {rr[name]!r} with {what} "
+                    f"at {reads[:5]}", case)
         for name, ref in (("inc_w", "inc_w"), ("inc_vols", "inc_vols"),
                           ("inc_w_again", "inc_w"), ("inc_w_final", "inc_w")):
             if not np.array_equal(rr[name], r[ref], equal_nan=True):
                 d = np.nanmax(np.abs(np.where(
                     np.isfinite(rr[name]) & np.isfinite(r[ref]),
-                    rr[name] - r[ref], 0.0)))
+                    rr[name] - r[ref], 0.0))) if len(rr[name]) == len(
+                        r[ref]) else float("nan")
                 raise Violation(
-                    f"reads-change-result:{name}",
-                    f"max |difference| {d:.3e} between the weights reported "
-                    f"with and without read-only queries (reads at "
+                    f"{label}:{name}",
+                    f"max |difference| {d:.3e} between the values reported "
+                    f"with and without {what} (positions "
                     f"{reads[:5]})", case)
+    if "real_vols" in r:
+        # the sampler's own finalise vs the documented closing schedule
+        for a, b, name in ((r["real_vols"], r["inc_vols"], "log_vols"),
+                           (r["real_w"], r["inc_w"], "weights")):
+            if not np.array_equal(a, b, equal_nan=True):
+                raise Violation(
+                    f"finalise!=documented-schedule:{name}",
+                    f"NestedSampler.finalise gives {name} that differ from "
+                    f"the schedule nlive - i (first at index "
+                    f"{int(np.argmax(~(a == b))) if len(a) == len(b) else -1}"
+                    f", lengths {len(a)} / {len(b)})", case)
+        if r["real_logZ"] != r["inc_logZ"] and not (
+                math.isnan(r["real_logZ"]) and math.isnan(r["inc_logZ"])):
+            raise Violation(
+                "finalise!=documented-schedule:logZ",
+                f"{r['real_logZ']!r} vs {r['inc_logZ']!r}", case)
     N = len(logL)
     vols = r["inc_vols"]
     # (c) volumes
@@ -408,6 +489,7 @@ def cases(draw, max_len, max_nlive, big=False):
     ))
     return {
         "reads": sorted(set(reads)),
+        "persist": bool(reads) and draw(st.booleans()),
         "nlive": nlive,
         "nlive_arr": arr,
         "expectation": expectation,
@@ -438,6 +520,8 @@ def classify(case):
         cl.append("shifted")
     if case.get("reads"):
         cl.append("interleaved-reads")
+    if case.get("persist"):
+        cl.append("pickle-round-trips")
     n = case["nlive"] if case["nlive"] else 1
     nontrivial = len(logL) >= n + 1 and len(set(fin)) > 1
     return cl, nontrivial
